@@ -67,6 +67,21 @@ Theorem C08_asym_coverage : forall P fx r src b1 off pol cert thumb rc,
 Proof. exact asym_accept. Qed.
 Print Assumptions C08_asym_coverage.
 
+(* No chunk switches security off: whatever bytes arrive, the policy the receive path leaves the
+   channel with is the one it had or a policy other than None (an OPN chunk naming a secured policy),
+   so on a Sign / SignAndEncrypt channel every later chunk still goes through the checks above.
+   [C08_preamble] is the same for any sequence of chunks fed first (the preamble of the cases). *)
+Theorem C08_no_downgrade : forall P fx r src,
+  secured (r_policy r) (r_mode r) = true -> secured (snd (recv P fx r src)) (r_mode r) = true.
+Proof. exact recv_stays_secured. Qed.
+Print Assumptions C08_no_downgrade.
+
+Theorem C08_preamble : forall fx c,
+  secured (C09.Model.c_policy (C08.Model.c_recv c)) (C09.Model.c_mode (C08.Model.c_recv c)) = true ->
+  secured (C08.Model.pre_policy fx c) (C09.Model.c_mode (C08.Model.c_recv c)) = true.
+Proof. intros fx c. apply pre_stays_secured. Qed.
+Print Assumptions C08_preamble.
+
 (* Per case of the correspondence run, what can be proved without a cryptographic assumption:
    every chunk gets a status accepted / rejected-with-an-error, never a panic.
    FULL STATEMENT, NOT PROVED (it is false for an adversarially chosen transcript, and true of the
